@@ -1,52 +1,22 @@
 /-
   `kmip-model` — line-protocol driver over the executable model (core Lean only).
-  One request per input line, one answer per output line.
+  One request per input line, one answer per output line. Each model area contributes one
+  handler `cmd arg ↦ Option String` (none = not mine); they are tried in order.
 -/
-import KmipModel.Model.Syntax
-open Kmip
+import Driver.Common
+import Driver.Wire
+open Driver
 
-def renderRes (r : Res String) : String :=
-  match r with
-  | .ok s => "ok " ++ s
-  | .err _ => "err"
-  | .panic m => "panic " ++ m
+/-- the handler chain: add one line per driver module. -/
+def handlers : List (String → String → Option String) := [
+  handleWire
+]
 
 def handle (line : String) : String :=
-  let line := line.trimAscii.toString
-  match line.splitOn " " with
-  | [] => "bad-op"
-  | cmd :: _ =>
-    let arg := (line.drop (cmd.length + 1)).toString
-    match cmd with
-    | "ping" => "pong"
-    | "wire.enc" =>
-      match parseTree arg with
-      | some t => "ok " ++ hexOfBytes (enc t)
-      | none => "bad-op"
-    | "wire.dec" =>
-      match bytesOfHex arg with
-      | some bs => renderRes (do let t ← unmarshalValue bs; pure t.render)
-      | none => "bad-op"
-    | "wire.spec" =>
-      match bytesOfHex arg with
-      | some bs => match specDecode bs with
-        | some t => "ok " ++ t.render
-        | none => "none"
-      | none => "bad-op"
-    | "big.enc" =>
-      match arg.toInt? with
-      | some v => "ok " ++ hexOfBytes (encodeBig v)
-      | none => "bad-op"
-    | "big.dec" =>
-      match bytesOfHex arg with
-      | some [] => "err"
-      | some bs => "ok " ++ toString (bytesToBigInt bs)
-      | none => "bad-op"
-    | "pad" =>
-      match arg.toNat? with
-      | some n => "ok " ++ toString (padForLen n 8)
-      | none => "bad-op"
-    | _ => "bad-op"
+  let (cmd, arg) := splitCmd line
+  match handlers.findSome? (fun h => h cmd arg) with
+  | some out => out
+  | none => "bad-op"
 
 partial def loop (hin hout : IO.FS.Stream) : IO Unit := do
   let line ← hin.getLine
